@@ -185,6 +185,47 @@ func defaultsUnits() []unit {
 	return units
 }
 
+// ---- requests that arrive with an allocation list already filled in ----------
+
+// presetUnits: the "Cluster.Pin" RPC endpoint receives a whole pin object; the
+// adder (and any RPC caller) fills in Allocations beforehand. The cluster then
+// does not decide the placement, so only the last sentence of the property is
+// judged: a pin stored with replication factor -1 has an empty list.
+func presetUnits() []unit {
+	s := R.Sec("preset-allocations")
+	s.Bounds["what"] = "Cluster.Pin RPC with Allocations preset to every ordered subset (size 1..2) of 3 peers x requested factors (-1,-1),(0,0),(0,-1),(-1,0),(1,2),(0,2) x cluster defaults (-1,-1),(1,2) x existing pin none/everywhere/allocated; judged: factors -1 => stored and returned allocation list empty (positive factors: the caller decided, nothing to judge)"
+	pairs := []pair{{-1, -1}, {0, 0}, {0, -1}, {-1, 0}, {1, 2}, {0, 2}}
+	var units []unit
+	for _, d := range []pair{{-1, -1}, {1, 2}} {
+		d := d
+		units = append(units, unit{
+			name: fmt.Sprintf("preset-%d_%d", d.mn, d.mx),
+			opts: rigOpts{alloc: "ascend", defMin: d.mn, defMax: d.mx},
+			body: func(r *rig) {
+				n := 3
+				st := []int{stV2, stV10, stV30}
+				r.setMetrics(n, st, defaultNonNum)
+				for _, cur := range subsets(n) {
+					for _, ex := range existingFor(cur) {
+						for _, prio := range prioLists(n) {
+							if len(prio) == 0 {
+								continue
+							}
+							for _, pr := range pairs {
+								c := Case{N: n, St: st, Cur: cur, Existing: ex, Prio: prio, Min: pr.mn, Max: pr.mx,
+									DefMin: d.mn, DefMax: d.mx, Alloc: "ascend", Entry: "rpcpin-preset", Excluded: -1}
+								o := r.evaluate("preset-allocations", c)
+								maybeSample("preset-allocations", 101, r, c, o, defaultNonNum)
+							}
+						}
+					}
+				}
+			},
+		})
+	}
+	return units
+}
+
 // ---- only the LATEST metric of a peer counts --------------------------------
 
 func historyUnits() []unit {
